@@ -122,6 +122,10 @@ class Program:
         from . import prenorm
         trees = {name: tree for name, rel, text, tree, info in raw}
         if not os.environ.get("SA_NO_PRENORM"):
+            for name, rel, text, tree, info in raw:
+                if info is None:
+                    prenorm.canonical_imports(tree, rel)
+                    prenorm.column_accessors(tree)
             prenorm.propagate_constants({n: t for n, t in trees.items()})
             prenorm.REGISTRY = prenorm.build_registry(trees)
             for t in trees.values():
